@@ -3,10 +3,10 @@ from props import _rtb
 LEVEL = 'exploration'
 PID = 'C03'
 SCRIPT = 'b_c03.py'
-SPEC = {'quick': {'designs': 150, 'styles': 1, 'files': {'edif': 7000}, 'limit': 20, 'file_limit': 60},
+SPEC = {'quick': {'designs': 150, 'styles': 2, 'files': {'edif': 30000}, 'limit': 20, 'file_limit': 60},
         'thorough': {'designs': 2500, 'styles': 1, 'files': {'edif': 200000}, 'limit': 20, 'file_limit': 400}}
 RULE = ('case = a netlist built through the public API from a seeded abstract design (creation order shuffled), or the netlist the '
-        'EDIF reader returns for text of the independent writer (one style per design), or a bundled .edf archive; each is written by '
+        'EDIF reader returns for text of the independent writer (styles_per_design styles per design), or a bundled .edf archive; each is written by '
         'sdn.compose and re-read by sdn.parse; distinct = sha1 of producer+AD(+style) / archive name; non-trivial = at least one '
         'instance, one connected net and one bus (array port or multi-bit net)')
 
@@ -17,7 +17,7 @@ def run(rep, tier, seed):
                        'is a balanced s-expression defining cells before use (independent s-expression reading); Inv of the re-read netlist')
     rep.assumptions.append('tier B: everything outside the stated bounds is unexplored; cable names ending in [digits] are not generated '
                            '(inexpressible under the name[i] bit-net convention of C05)')
-    _rtb.run(rep, PID, SCRIPT, tier, seed, SPEC, RULE)
+    _rtb.run(rep, PID, SCRIPT, tier, seed, SPEC, RULE, gen_bounds=_rtb.HIER_BOUNDS)
 
 
 def replay(path):
